@@ -30,6 +30,15 @@ Theorem C12_discard : forall s s', astep s ADiscard = (None, s') ->
 Proof. exact discard_spec. Qed.
 Print Assumptions C12_discard.
 
+(** For every sequence of operations (stagings of arbitrary - valid or invalid - states, Apply,
+    Discard, and direct tampering of the two policy references) on a fresh repository: the policy
+    entries the log ends up with form a chain that LoadCurrentState accepts.  What is published can
+    always be loaded. *)
+Theorem C12_published_always_loadable : forall ops es s,
+  arun a_init ops = (es, s) -> published_loadable s = true.
+Proof. exact published_always_loadable. Qed.
+Print Assumptions C12_published_always_loadable.
+
 (** C12_api_partial.  The refusal of root-of-trust changes for signers who are not root principals
     (experimental/gittuf loadRootMetadata) lives behind gittuf.Repository, which wraps a real git
     repository; it is not modelled or exercised here.  The diverged case of ReconcileStaging
